@@ -726,6 +726,7 @@ fn main() {
                 r
             }
             "DEC" => do_dec(id, &t),
+            "DECX" => format!("ERR {} inapplicable reuse (decode constructs a new value in this target)\n", id),
             "PRE" => {
                 let d = unhex(t.get(2).copied().unwrap_or("")).unwrap_or_default();
                 if let Ok(mut p) = PRE.lock() {
